@@ -595,6 +595,13 @@ class Universe:
         if parent is not None and via == 'item':
             p = parent
             c.append(z3.Implies(U.cls(p) == K['str'], z3.And(U.cls(t) == K['str'], U.len(t) == 1)))
+            # a one-character string is its own only character
+            c.append(z3.Implies(z3.And(U.cls(p) == K['str'], U.len(p) == 1), U.sval(t) == U.sval(p)))
+            if isinstance(index, int):
+                for sconst, code in STR_CONSTS.items():
+                    if index < len(sconst) and sconst[index] in STR_CONSTS:
+                        c.append(z3.Implies(z3.And(U.cls(p) == K['str'], U.sval(p) == code),
+                                            U.sval(t) == STR_CONSTS[sconst[index]]))
             c.append(z3.Implies(U.cls(p) == K['bytes'],
                                 z3.And(U.cls(t) == K['int'], U.ival(t) >= 0, U.ival(t) < 256)))
             iz = z3.IntVal(index) if isinstance(index, int) else index
@@ -658,6 +665,9 @@ class Universe:
                       patterns=[U.ival(o)]),
             z3.ForAll([o, i], z3.Implies(U.cls(o) == K['str'],
                                          z3.And(U.cls(U.item(o, i)) == K['str'], U.len(U.item(o, i)) == 1)),
+                      patterns=[U.item(o, i)]),
+            z3.ForAll([o, i], z3.Implies(z3.And(U.cls(o) == K['str'], U.len(o) == 1),
+                                         U.sval(U.item(o, i)) == U.sval(o)),
                       patterns=[U.item(o, i)]),
             z3.ForAll([o, i], z3.Implies(U.cls(o) == K['bytes'], U.cls(U.item(o, i)) == K['int']),
                       patterns=[U.item(o, i)]),
